@@ -193,7 +193,18 @@ func (w *world) concretise(t *aTx, tag string) (*pb.Transaction, error) {
 		}
 		return dThis
 	}
-	mk := func(s aSig) (*protos.SignatureInfo, error) {
+	// equal abstract entries are ONE real entry listed again, byte for byte (ECDSA signatures are randomised: a
+	// second signature would be another one) - a replayed signature is a copy, whoever lists it needs no key
+	made := map[aSig]*protos.SignatureInfo{}
+	mk := func(s aSig) (si *protos.SignatureInfo, err error) {
+		if prev, ok := made[s]; ok {
+			return proto.Clone(prev).(*protos.SignatureInfo), nil
+		}
+		defer func() {
+			if err == nil {
+				made[s] = si
+			}
+		}()
 		pk, ok := w.key[s.Pk]
 		if !ok {
 			return &protos.SignatureInfo{PublicKey: "{not a key}", Sign: []byte{1}}, nil
@@ -329,6 +340,10 @@ type stats struct {
 	MutByVar  map[string]int `json:"mut_by_var"`
 	Touched   map[string]int `json:"touched"`
 	Why       map[string]int `json:"why"`
+	Fam       map[string]int `json:"families"`
+	Sub       map[string]int `json:"submit"`
+	Blk       int            `json:"block_ops"`
+	BlkBy     map[string]int `json:"block_by"`
 	Schema    int            `json:"schema_fields"`
 	GramToks  int            `json:"gram_tok_lines"`
 	GramRefs  int            `json:"gram_ref_lines"`
@@ -338,7 +353,7 @@ type stats struct {
 
 func newStats() *stats {
 	return &stats{ByForm: map[string]int{}, ByRes: map[string]int{}, MutRes: map[string]int{}, MutByVar: map[string]int{},
-		Touched: map[string]int{}, Why: map[string]int{}}
+		Touched: map[string]int{}, Why: map[string]int{}, Fam: map[string]int{}, Sub: map[string]int{}, BlkBy: map[string]int{}}
 }
 
 func (s *stats) print() {
